@@ -80,6 +80,58 @@ fn check_shape(shape: &[usize], labeling: &str) -> (u64, u64, Vec<Viol>) {
                 case_j(shape, &list, labeling),
             )),
         }
+        // the value returned is a spectrum like any other: every entry through the indexing operator
+        // (which goes through its strides), and equal to one built from the expected values
+        evals += 1;
+        let through_indices = catch(|| {
+            let got = scs.marginalize(&axes).map_err(|e| e.to_string())?;
+            let mut k = 0usize;
+            let mut bad: Option<String> = None;
+            crate::enumerate::for_each_index(&expect.shape, |idx| {
+                if bad.is_none() && got.inner().get(idx.to_vec()).copied() != Some(expect.data[k]) {
+                    bad = Some(format!("entry {idx:?} is {:?}, expected {}", got.inner().get(idx.to_vec()), expect.data[k]));
+                }
+                k += 1;
+            });
+            if bad.is_none() && got != scs_from_ref(&expect) {
+                bad = Some("the result does not compare equal to a spectrum built from the expected shape and values".into());
+            }
+            Ok::<_, String>(bad)
+        });
+        match through_indices {
+            Ok(Ok(None)) => {}
+            other => viols.push((
+                format!("C04|lib|result-not-a-proper-spectrum|{}", class(&list)),
+                format!("marginalize({list:?}) of shape {shape:?}: {other:?}"),
+                case_j(shape, &list, labeling),
+            )),
+        }
+        // a single axis: the slices along it, copied out with to_array, add up to the marginal
+        if list.len() == 1 {
+            evals += 1;
+            let a = list[0];
+            let slices = catch(|| {
+                let mut acc = vec![0.0f64; expect.data.len()];
+                for j in 0..shape[a] {
+                    let t = scs.inner().index_axis(Axis(a), j).to_array();
+                    if t.shape().to_vec() != expect.shape {
+                        return Err(format!("slice {j} has shape {:?}", t.shape().to_vec()));
+                    }
+                    for (s, v) in acc.iter_mut().zip(t.as_slice()) {
+                        *s += v;
+                    }
+                }
+                Ok(acc)
+            });
+            match slices {
+                Ok(Ok(acc)) if acc == expect.data => {}
+                other => viols.push((
+                    format!("C04|lib|slices-do-not-add-up|{}", class(&list)),
+                    format!("the slices of shape {shape:?} along axis {a} (index_axis(..).to_array()) add up to {other:?}, the marginal is {:?}", expect.data),
+                    case_j(shape, &list, labeling),
+                )),
+            }
+        }
         // one at a time, in the order named (axis numbers shift down as axes disappear)
         evals += 1;
         let one_by_one = catch(|| {
@@ -470,6 +522,38 @@ pub fn run(tier: Tier) -> i32 {
         extra: vec![],
     });
 
+    // the array-level sum down to a single total: the last step leaves an array without axes holding
+    // one value (the spectrum-level call refuses to remove every axis, the array-level one does not)
+    {
+        let mut n = 0u64;
+        for sh in [vec![1usize], vec![2], vec![5], vec![8], vec![2, 3], vec![3, 2], vec![2, 2, 3]] {
+            n += 1;
+            let x = bit_labels(&sh);
+            let total: f64 = x.data.iter().sum();
+            let got = catch(|| {
+                let mut a = scs_from_ref(&x).inner().clone();
+                while a.dimensions() > 0 {
+                    a = a.sum(Axis(a.dimensions() - 1));
+                }
+                (a.shape().to_vec(), a.as_slice().to_vec(), a.elements())
+            });
+            if !matches!(&got, Ok((s, v, e)) if s.is_empty() && v == &vec![total] && *e == 1) {
+                rep.violation(
+                    format!("C04|lib|sum-down-to-total|{}axes", sh.len()),
+                    format!("summing shape {sh:?} axis by axis down to no axes gives {got:?}, expected an array without axes holding [{total}]"),
+                    J::obj([("kind", J::s("c04-total")), ("shape", J::usizes(&sh))]),
+                );
+            }
+        }
+        rep.part(Part {
+            name: "lib: array sums down to the total".into(),
+            evaluations: n,
+            nontrivial: n,
+            note: "seven shapes with 1..3 axes summed axis by axis (last axis first) until no axis is left: one value, the total".into(),
+            exhaustive: true,
+            extra: vec![],
+        });
+    }
     // L2
     let scratch = Scratch::new("c04");
     let cli_shapes: Vec<Vec<usize>> = if tier.thorough() {
